@@ -21,6 +21,7 @@ import JumanjiModel.Core.EpisodeLemmas
 import JumanjiModel.Props.Env.Maze
 import JumanjiModel.Props.Env.Cleaner
 import JumanjiModel.Props.Env.Connector
+import JumanjiModel.Env.Connector.PlanEpisodeLemmas
 import JumanjiModel.Props.Env.LBF
 import JumanjiModel.Props.Env.FlatPack
 import JumanjiModel.Props.Env.Tetris
@@ -483,3 +484,90 @@ theorem rware_rollout_count_within_limit (cfg : RobotWarehouse.Cfg) (hT : 0 < cf
     (fun s a _ => (Props.C12.rware_obs_copied_partial cfg s a.1 a.2).2.1) hT s trivial h0 as hlen
 
 end Props.C01
+
+/-! ### audit r6 #9 / #4 (Connector): whole-episode composition, and the plan theorems RESPECTING `time_limit` -/
+
+namespace Props.C01
+open Connector Sp PzS PkS MaS in
+/-- ONE statement for "every observation of every episode, reset to the first LAST inclusive" (audit r6 #9): from any state with the
+invariant and counter 0 (every reset state of either generator: `connector_specInv_invariant`), for ANY joint actions of the right
+length, with `0 < time_limit`: the reset observation is a member of the declared spec, there IS a first LAST timestep, it comes at
+step `k ≤ time_limit`, and the observation of every step up to and including that one is a member -/
+theorem connector_episode_obs_valid (cfg : Connector.Cfg) (hn : 0 < cfg.n) (hk : 0 < cfg.k) (hT : 0 < cfg.timeLimit)
+    (s0 : Connector.State) (h : SpecInv cfg s0) (h0 : s0.stepCount = 0) (as : List (List Int))
+    (has : ∀ a ∈ as, a.length = cfg.k) (hlen : cfg.timeLimit ≤ as.length) :
+    (obsSpec cfg).valid (toNValue (resetTs cfg s0).obs) = true ∧
+    ∃ k, Ep.firstLastTS ((Ep.rollout (Connector.step cfg) s0 as).map (·.2)) = some k ∧ 0 < k ∧ (k : Int) ≤ cfg.timeLimit ∧
+      ∀ j e, j < k → (Ep.rollout (Connector.step cfg) s0 as)[j]? = some e → (obsSpec cfg).valid (toNValue e.2.obs) = true := by
+  refine ⟨Connector.reset_obs_valid cfg hn hk (by omega) s0 h h0, ?_⟩
+  obtain ⟨k, hk1, hk2, hk3⟩ := Props.C11.connector_rollout_ends_by_limit cfg hT s0 h0 as hlen
+  exact ⟨k, hk1, hk2, hk3, fun j e hj he =>
+    Connector.rollout_obs_valid cfg hn hk s0 h h0 as has j (by omega) e he⟩
+end Props.C01
+
+namespace Props.C10
+open Connector
+
+/-- the solving episode of a route plan is a REAL episode when it fits in the limit (audit r6 #4): from a state with counter 0 and a
+route plan whose episode `planActs` has `1 ≤ length ≤ time_limit` steps, the FIRST LAST timestep of the rollout of the
+implementation model `step` is the final step of the plan — no earlier step ends the episode (neither by completion nor by the
+limit), so `finalL1` of `connector_plan_solves` is the state at that LAST timestep -/
+theorem connector_plan_first_last (cfg : Cfg) (s0 : State) (routes : List (List Pos))
+    (P : Connector.Plan cfg.n cfg.k s0 routes) (h0 : s0.stepCount = 0)
+    (hpos : 0 < (planActs cfg.k routes).length)
+    (hfit : ((planActs cfg.k routes).length : Int) ≤ cfg.timeLimit) :
+    firstLastTS ((rollout (step cfg) s0 (planActs cfg.k routes)).map (·.2)) = some (planActs cfg.k routes).length := by
+  rw [firstLast_ofStep (step cfg) (·.stepCount), firstLast_spec]
+  have key : ∀ j, j < (planActs cfg.k routes).length →
+      ((ofStep (step cfg) (·.stepCount)).lastAt s0 (planActs cfg.k routes) (j + 1) = true ↔
+        j + 1 = (planActs cfg.k routes).length) := by
+    intro j hj
+    have ha : (planActs cfg.k routes)[j]? = some (planActs cfg.k routes)[j] := List.getElem?_eq_getElem hj
+    have hs := Connector.traceL1_getElem? cfg (planActs cfg.k routes) s0 j (by omega)
+    have hp := (connector_plan_playable cfg s0 routes P j _ _ hs ha).2.2.2.2.2
+    have hc := Connector.stateAt_stepCount cfg (planActs cfg.k routes) s0 j (by omega)
+    simp only [Sys.lastAt, ha]
+    show ((step cfg _ _).2.stepType == .last) = true ↔ _
+    rw [beq_iff_eq, hp, hc, h0]
+    constructor
+    · rintro (h | h)
+      · exact h
+      · omega
+    · exact Or.inl
+  refine ⟨hpos, ?_, ?_⟩
+  · obtain ⟨m, hm⟩ : ∃ m, (planActs cfg.k routes).length = m + 1 := ⟨_, (Nat.succ_pred_eq_of_pos hpos).symm⟩
+    rw [hm]; exact (key m (by omega)).2 hm.symm
+  · intro j hj1 hj2
+    obtain ⟨m, rfl⟩ : ∃ m, j = m + 1 := ⟨j - 1, by omega⟩
+    cases hl : (ofStep (step cfg) (·.stepCount)).lastAt s0 (planActs cfg.k routes) (m + 1) with
+    | false => rfl
+    | true => have := (key m (by omega)).1 hl; omega
+
+/-- THE GENERATOR'S PROMISE respecting `time_limit`: for every draw of `RandomWalkGenerator` in which no agent is boxed in, if the
+solving episode read off the recorded solution fits in the limit, then played on `step` from the emitted reset state its first LAST
+timestep is its final step, and the state reached there is a complete solution -/
+theorem connector_walk_generated_board_solved_within_limit (cfg : Cfg) (hn : 0 < cfg.n) (hk : 0 < cfg.k)
+    (init : List (Int × Int)) (tape : List (List Int)) (hv : validWalkDraw cfg.n cfg.k init tape = true)
+    (hnb : ∀ d ∈ init, d.2 ≠ -1)
+    (hfit : ((solveActs cfg.n cfg.k (walkGenerate cfg.n cfg.k init tape).2 (walkGenerate cfg.n cfg.k init tape).1).length : Int)
+        ≤ cfg.timeLimit)
+    (hpos : 0 < (solveActs cfg.n cfg.k (walkGenerate cfg.n cfg.k init tape).2 (walkGenerate cfg.n cfg.k init tape).1).length) :
+    Ep.firstLastTS ((Ep.rollout (step cfg) (walkGenerate cfg.n cfg.k init tape).2
+      (solveActs cfg.n cfg.k (walkGenerate cfg.n cfg.k init tape).2 (walkGenerate cfg.n cfg.k init tape).1)).map (·.2)) =
+      some (solveActs cfg.n cfg.k (walkGenerate cfg.n cfg.k init tape).2 (walkGenerate cfg.n cfg.k init tape).1).length ∧
+    solutionB cfg.n cfg.k (finalL1 cfg (walkGenerate cfg.n cfg.k init tape).2
+      (solveActs cfg.n cfg.k (walkGenerate cfg.n cfg.k init tape).2 (walkGenerate cfg.n cfg.k init tape).1)) = true := by
+  refine ⟨?_, (connector_walk_generated_board_solvable cfg hn hk init tape hv hnb).2⟩
+  have P := connector_cert_gives_plan cfg.n cfg.k _ _
+    (connector_walk_reset_fresh cfg.n cfg.k hn hk init tape hv hnb)
+    (connector_walk_solved_board cfg.n cfg.k hn hk init tape hv hnb)
+  unfold solveActs at hfit hpos ⊢
+  exact connector_plan_first_last cfg _ _ P rfl hpos hfit
+
+/-- the hypotheses are satisfiable and the bound is sharp: on the certified 3 × 3 board the 4-step solving episode has its first LAST
+at step 4 when `time_limit = 4`; with `time_limit = 2` it does not fit (`connector_plan_ignores_time_limit_witness`) -/
+example :
+    let s : State := ⟨[[2, 0, 3], [0, 0, 0], [5, 0, 6]], 0, [⟨0, (0, 0), (0, 2), (0, 0)⟩, ⟨1, (2, 0), (2, 2), (2, 0)⟩]⟩
+    let solved : Jx.Grid Int := [[2, 1, 3], [0, 0, 0], [5, 4, 6]]
+    Ep.firstLastTS ((Ep.rollout (step ⟨3, 2, 4, 1, -3/100⟩) s (solveActs 3 2 s solved)).map (·.2)) = some 4 := by decide +kernel
+end Props.C10
